@@ -29,17 +29,37 @@ type zzScenario struct {
 	tbls    []*objects.Table
 }
 
+// zzPK: the primary key of every table of the scenario (parameter pk): 0 = the first
+// column, 1 = the second column (the unique cell moves there), 2 = both columns listed
+// as (second, first), 3 = no key.
+func zzPK() []uint32 {
+	switch zzverif.Param("pk", 0) {
+	case 1:
+		return []uint32{1}
+	case 2:
+		return []uint32{1, 0}
+	case 3:
+		return nil
+	}
+	return []uint32{0}
+}
+
 func zzRows(n int, tag string) [][]string {
 	rows := make([][]string, n)
-	for i := range rows {
-		rows[i] = []string{fmt.Sprintf("k%03d", i), tag}
+	kcol, vcol := 0, 1
+	if p := zzverif.Param("pk", 0); p == 1 || p == 2 {
+		kcol, vcol = 1, 0
 	}
-	// emptyCells = 1: the last row of every table ends in an empty cell and one more
+	for i := range rows {
+		rows[i] = make([]string, 2)
+		rows[i][kcol], rows[i][vcol] = fmt.Sprintf("k%03d", i), tag
+	}
+	// emptyCells = 1: the last row of every table has an empty cell and one more
 	// row has an empty non-key cell (empty cells are ordinary CSV content)
 	if zzverif.Param("emptyCells", 0) == 1 && n > 0 {
-		rows[n-1][1] = ""
+		rows[n-1][vcol] = ""
 		if n > 2 {
-			rows[1][1] = ""
+			rows[1][vcol] = ""
 		}
 	}
 	return rows
@@ -49,7 +69,7 @@ func zzRows(n int, tag string) [][]string {
 // inserter), so that what the receiver rebuilds (block indices, table index) is
 // compared with what ingest itself produces.
 func zzIngested(db *zzrepo.ObjStore, rows [][]string) ([]byte, *objects.Table) {
-	sum, err := zzingest.Ingest(db, []string{"a", "b"}, []uint32{0}, rows, 1<<40, 1)
+	sum, err := zzingest.Ingest(db, []string{"a", "b"}, zzPK(), rows, 1<<40, 1)
 	if err != nil {
 		panic(err)
 	}
@@ -199,6 +219,10 @@ func Harness_C07_sendrecv() {
 		zzverif.Assert("table-index-rebuilt-identically", ok && bytes.Equal(ta, tb))
 		_, ok = dst.M["tblsum/"+string(sc.tables[i])]
 		zzverif.Assert("table-profile-present", ok || (have0 && i == 0))
+		if zzverif.Param("structure", 0) == 1 {
+			// C03 on the received table: row count, block fill, key order, block indices, table index
+			zzrepo.CheckStructure(dst, sc.tables[i])
+		}
 	}
 	// nothing but these objects arrived
 	for k := range dst.M {
